@@ -207,7 +207,14 @@ func definitelyNonNilErr(v ssa.Value) bool {
 	case *ssa.Call:
 		n := callName(x)
 		switch n {
-		case "Wrap", "Wrapf", "New", "Errorf", "Error", "Newf", "Register", "WithType":
+		case "Wrap", "Wrapf", "WithType", "WithStack", "WithMessage", "WithMessagef":
+			// the package-level wrappers (cosmossdk.io/errors.Wrap(err, …), pkg/errors) return nil for a nil error;
+			// the methods of a registered error (ErrX.Wrap(…)) never do
+			if f := x.Call.StaticCallee(); f != nil && f.Signature.Recv() == nil && !x.Call.IsInvoke() {
+				return len(x.Call.Args) > 0 && (definitelyNonNilErr(x.Call.Args[0]) || guardedNonNil(x.Call.Args[0], x))
+			}
+			return true
+		case "New", "Errorf", "Error", "Newf", "Register":
 			return true
 		}
 		if strings.HasPrefix(n, "Err") {
